@@ -276,6 +276,132 @@ def recoverWalk (c : Case) (v : Nat) (inner : G) (r : Rec) :
           (tagged ++ ps, n, sg)
     | _ => (["?"], nsink, failedBefore)
 
+/-- one recovering parser started in state `s` with an error sink: the expected value
+text, the state it resumes in and the number of errors it reports; `some none` = a recovery
+error is expected; `none` = the reference evaluator ran out of fuel -/
+def recStep (c : Case) (v : Nat) (inner : G) (r : Rec) (s : Spec.PState) :
+    Option (Option (String × Spec.PState × Nat)) :=
+  match Spec.peg c.text 4000 inner s with
+  | .ok val s1 => some (some ((if v % 2 == 0 then "S(" ++ GWire.showVal val ++ ")" else GWire.showVal val), s1, 0))
+  | .fail =>
+    match recPoint r s.view with
+    | some i =>
+      let s1 : Spec.PState := { s with rest := s.rest.drop (s.rest.length - (s.rest.dropWhile (fun x => !(s.view.drop i).head?.any (· == x))).length) }
+      some (some ((if v % 2 == 0 then "N" else "D"), s1, 1))
+    | none => some none
+  | _ => none
+
+/-- what a sequence of parsers, some of them recovering, must do (error sink attached) -/
+inductive SeqExp where
+  | ok (v : String) (s : Spec.PState) (nerr : Nat)
+  /-- a recovering parser has no recovery point: a recovery error, after `nerr` reported errors -/
+  | recErr (nerr : Nat)
+  /-- a plain parser fails: its own error is returned, after `nerr` reported errors -/
+  | plainErr (nerr : Nat)
+  | fuel
+  | unsupported
+
+/-- Recovering parsers composed *in sequence* (`both`/`left`/`right`/`center`/`stabilize`) with
+plain parsers of the PEG family: every recovering parser that fails resumes at *its own*
+recovery token whatever recovery state the lexer it was started on carries (C12), and the
+plain parsers see the stream from there. -/
+def seqEval (c : Case) : G → Spec.PState → SeqExp
+  | .recover v _ inner r, s =>
+    if !Spec.supported inner then .unsupported else
+    match recStep c v inner r s with
+    | none => .fuel
+    | some none => .recErr 1
+    | some (some (val, s1, n)) => .ok val s1 n
+  -- `stabilize` only matters when its parser fails (it then retries from further recovery
+  -- points of whatever recovery is in force): judged only when the parser succeeds
+  | .stabilize a, s =>
+    (match seqEval c a s with
+    | .ok v s1 n => .ok v s1 n
+    | .fuel => .fuel
+    | _ => .unsupported)
+  | .both a b, s =>
+    if Spec.supported (.both a b) then seqLeaf (.both a b) s else
+    match seqEval c a s with
+    | .ok va s1 n1 =>
+      (match seqEval c b s1 with
+      | .ok vb s2 n2 => .ok ("(" ++ va ++ "," ++ vb ++ ")") s2 (n1 + n2)
+      | .recErr n => .recErr (n1 + n) | .plainErr n => .plainErr (n1 + n) | e => e)
+    | e => e
+  | .left a b, s =>
+    if Spec.supported (.left a b) then seqLeaf (.left a b) s else
+    match seqEval c a s with
+    | .ok va s1 n1 =>
+      (match seqEval c b s1 with
+      | .ok _ s2 n2 => .ok va s2 (n1 + n2)
+      | .recErr n => .recErr (n1 + n) | .plainErr n => .plainErr (n1 + n) | e => e)
+    | e => e
+  | .right a b, s =>
+    if Spec.supported (.right a b) then seqLeaf (.right a b) s else
+    match seqEval c a s with
+    | .ok _ s1 n1 =>
+      (match seqEval c b s1 with
+      | .ok vb s2 n2 => .ok vb s2 (n1 + n2)
+      | .recErr n => .recErr (n1 + n) | .plainErr n => .plainErr (n1 + n) | e => e)
+    | e => e
+  | .center a b d, s =>
+    if Spec.supported (.center a b d) then seqLeaf (.center a b d) s else
+    match seqEval c a s with
+    | .ok _ s1 n1 =>
+      (match seqEval c b s1 with
+      | .ok vb s2 n2 =>
+        (match seqEval c d s2 with
+        | .ok _ s3 n3 => .ok vb s3 (n1 + n2 + n3)
+        | .recErr n => .recErr (n1 + n2 + n) | .plainErr n => .plainErr (n1 + n2 + n) | e => e)
+      | .recErr n => .recErr (n1 + n) | .plainErr n => .plainErr (n1 + n) | e => e)
+    | e => e
+  | g, s => if Spec.supported g then seqLeaf g s else .unsupported
+where
+  seqLeaf (g : G) (s : Spec.PState) : SeqExp :=
+    match Spec.peg c.text 4000 g s with
+    | .ok val s1 => .ok (GWire.showVal val) s1 0
+    | .fail => .plainErr 0
+    | _ => .fuel
+
+/-- walk the invocations of a sequence containing recovering parsers, up to the first
+recovery error (after which closure flags may be left set: finding F07r, judged by the
+single-parser oracle) -/
+def recoverSeqWalk (c : Case) (g : G) : List String → Spec.PState → Nat → List String × Nat × Bool
+  | [], _, nsink => ([], nsink, true)
+  | res :: more, s, nsink =>
+    let got := (res.splitOn ":cur=").headD res
+    match seqEval c g s with
+    | .fuel | .unsupported => (["?"], nsink, false)
+    | .recErr n =>
+      ((if res == "err:E[]recover" then [] else [s!"a recovery in the sequence has no recovery point: expected a recovery error, got {got}"]),
+       nsink + n, false)
+    | .plainErr n =>
+      let p := if res.startsWith "err:" && !res.startsWith "err:E[]recover" then []
+        else [s!"a plain parser of the sequence fails after every recovery found its point: its error must be returned, got {got}"]
+      let (ps, k, full) := recoverSeqWalk c g more s (nsink + n)
+      (p ++ ps, k, full)
+    | .ok ev s1 n =>
+      let p := match okParts res with
+        | some (iv, _, rest) =>
+          (if normalizeSp iv == normalizeSp ev then [] else [s!"value {iv} expected {ev}"]) ++
+          (if rest == showView s1 then [] else [s!"after the sequence the stream is {rest}, expected {showView s1}: a recovery did not resume at its own token"])
+        | none => [s!"every recovery of the sequence has a recovery point but the result is {got}"]
+      let (ps, k, full) := recoverSeqWalk c g more s1 (nsink + n)
+      (p ++ ps, k, full)
+
+def hasRecover : G → Bool
+  | .recover .. => true
+  | .stabilize a => hasRecover a
+  | .both a b | .left a b | .right a b => hasRecover a || hasRecover b
+  | .center a b d => hasRecover a || hasRecover b || hasRecover d
+  | _ => false
+
+def recoverSeqOracle (c : Case) (o : ImplObs) : String :=
+  if !c.sink then "SKIP recoveries in sequence without a sink" else
+  let (ps, nsink, full) := recoverSeqWalk c c.g o.results (initialPState c) 0
+  if ps.contains "?" then "SKIP sequence outside the PEG family or evaluator out of fuel" else
+  let ps := ps ++ (if full && o.sink.length != nsink then [s!"{o.sink.length} errors reported, expected exactly {nsink}"] else [])
+  if ps.isEmpty then "ok" else "FAIL C12: " ++ " && ".intercalate ps
+
 def recoverOracle (c : Case) (impl : String) : String :=
   match c.g, parseObs impl with
   | .recover v _ inner r, some o =>
@@ -285,7 +411,8 @@ def recoverOracle (c : Case) (impl : String) : String :=
     let ps := ps ++ (if c.sink && o.sink.length != nsink then [s!"{o.sink.length} errors reported, expected exactly {nsink}"] else [])
     if ps.isEmpty then "ok" else "FAIL C12: " ++ " && ".intercalate ps
   | .recover .., none => "FAIL C12: " ++ impl
-  | _, _ => "SKIP not a top-level recover"
+  | g, some o => if hasRecover g then recoverSeqOracle c o else "SKIP not a sequence with a recovering parser"
+  | _, none => "FAIL C12: " ++ impl
 
 /-! ### C11: delimited lists parse segment by segment -/
 
@@ -295,9 +422,21 @@ def listOracle (c : Case) (impl : String) : String :=
     if !Spec.supported item then "SKIP item parser outside the PEG family" else
     let lo := if v % 2 == 0 then 0 else lo
     let hi : Option Nat := if v % 2 == 0 then none else hi
-    if hi == some 0 then "SKIP upper bound 0" else
     let s0 := initialPState c
     let view := s0.view
+    if hi == some 0 then
+      -- the upper bound stops the list before its first segment: no entry, nothing consumed,
+      -- nothing examined (so nothing reported), sink or no sink
+      let res := o.results.headD ""
+      let problems :=
+        (match okParts res with
+         | some (iv, _, rest) =>
+           (if iv == "L[]" then [] else [s!"upper bound 0: entries {iv} expected L[]"]) ++
+           (if rest == viewFrom view 0 then [] else [s!"upper bound 0: returned lexer continues at {rest}, expected {viewFrom view 0}"])
+         | none => [s!"upper bound 0: the list must succeed with no entries, got {(res.splitOn ":cur=").headD res}"]) ++
+        (if o.results.length == 1 && !o.sink.isEmpty then [s!"upper bound 0: {o.sink.length} errors reported, expected none"] else [])
+      if problems.isEmpty then "ok" else "FAIL C11: " ++ " && ".intercalate problems
+    else
     let ex := Spec.listSpec c.text c.filter hi item sep abort view
     let entries := ex.entries
     let showEntry := fun (e : Option Val) =>
